@@ -152,6 +152,9 @@ func (g *gen) split(full string) (string, int) {
 	return full, 0
 }
 
+// regAll makes keys of an inherited state known (they are used verbatim).
+func (g *gen) regAll(b *model.Bucket) {}
+
 func (g *gen) reg(k string, pad int) {
 	if pad > 0 {
 		g.keys[string(MkKey(k, pad))] = keyParts{k, pad}
@@ -596,9 +599,36 @@ func (g *gen) genTxn(writable bool) *Txn {
 	return t
 }
 
+// FinalModel returns the shape (buckets and keys; values are placeholders) of
+// the state a program leaves behind when every commit succeeds.
+func FinalModel(prog *Program) *model.Bucket {
+	g := &gen{cur: model.NewBucket(), keys: map[string]keyParts{}}
+	for _, st := range prog.Steps {
+		if st.Kind != "tx" || (st.Tx.Mode != "update" && st.Tx.Mode != "rw") || st.Tx.End != "commit" {
+			continue
+		}
+		g.w = g.cur.Clone()
+		g.dirt = map[*model.Bucket]bool{}
+		for _, op := range st.Tx.Ops {
+			g.applyModel(op)
+			if op.Pad > 0 {
+				g.reg(op.Key, op.Pad)
+			}
+		}
+		g.cur = g.w
+	}
+	return g.cur
+}
+
 // GenProgram draws a whole single-task program.
 func GenProgram(ts *sim.Tapes, cfg Config, p GenParams) *Program {
-	g := &gen{t: ts.Get("ops"), p: p, cfg: cfg, cur: model.NewBucket(), keys: map[string]keyParts{}}
+	return GenProgramFrom(ts, cfg, p, model.NewBucket())
+}
+
+// GenProgramFrom draws a program that starts from the given state shape.
+func GenProgramFrom(ts *sim.Tapes, cfg Config, p GenParams, start *model.Bucket) *Program {
+	g := &gen{t: ts.Get("ops"), p: p, cfg: cfg, cur: start.Clone(), keys: map[string]keyParts{}}
+	g.regAll(g.cur)
 	prog := &Program{Cfg: cfg}
 	nsteps := 1 + g.t.Intn(p.MaxSteps)
 	if g.t.Chance(1, 3) { // many short runs
